@@ -37,7 +37,7 @@ def cases_for(ctx):
         tuples.append(("doc", None, 500, render(d, ctx.rng)))
         muts = list(token_mutations(d))
         if quick:
-            muts = muts[:: max(1, len(muts) // 120)]
+            muts = muts[:: max(1, len(muts) // 80)]
         for m in muts:
             tuples.append(("doc", None, 500, render(m)))
     for src in test_data_files():
@@ -74,7 +74,7 @@ def run(ctx):
     cases = with_items(impl, cases_for(ctx))
     rows = ctx.correspond(impl, model, "c01_parse", cases, classify=classify,
                           nontrivial=lambda c, o: len(c.split(" ")[3]) > 2, describe=describe)
-    comp = composed_sample(ctx, cases, limit=2500 if ctx.tier == "quick" else 40000)
+    comp = composed_sample(ctx, cases, limit=1500 if ctx.tier == "quick" else 40000)
     ctx.correspond(impl, model, "c01_parse", comp, classify=classify, nontrivial=lambda c, o: True,
                    describe=describe)
     ctx.cov["composed_with_lexer_model"] = {
